@@ -53,7 +53,10 @@ func init() {
 			nFaults := cfgInt(x, "faults", 1)
 			maxIdx := cfgInt(x, "maxidx", 8)
 			for i := 0; i < nFaults; i++ {
-				kind := 1 + vs.Choose("kind", nFaultKinds-1)
+				kind := cfgInt(x, "kind", 0)
+				if kind == 0 {
+					kind = 1 + vs.Choose("kind", nFaultKinds-1)
+				}
 				up := vs.Choose("dir", 2) == 0
 				idx := vs.Choose("idx", maxIdx)
 				w.faults = append(w.faults, faultSpec{up: up, index: idx, kind: kind})
